@@ -857,7 +857,18 @@ fn check_path_boxes(cx: &mut Ctx, rng: &mut Rng) {
     use lyon_path::math::{point as pt, Box2D};
     use lyon_path::{Path, PathEvent};
     let lattice = rng.chance(1, 2);
-    let mut g = |r: &mut Rng| if lattice { pt(r.range(-9, 9) as f32, r.range(-9, 9) as f32) } else { pt((r.unit_f64() * 40.0 - 20.0) as f32, (r.unit_f64() * 40.0 - 20.0) as f32) };
+    // one path in five is flat (all points on one horizontal or vertical line) or a lone point: boxes of zero
+    // width / height are boxes of non-empty paths too
+    let flat = rng.below(10);
+    let (fx, fy) = (rng.range(-9, 9) as f32 + 0.5, rng.range(-9, 9) as f32 + 0.5);
+    let mut g = |r: &mut Rng| {
+        let p = if lattice { pt(r.range(-9, 9) as f32, r.range(-9, 9) as f32) } else { pt((r.unit_f64() * 40.0 - 20.0) as f32, (r.unit_f64() * 40.0 - 20.0) as f32) };
+        match flat {
+            0 => pt(p.x, fy),
+            1 => pt(fx, p.y),
+            _ => p,
+        }
+    };
     let mut b = Path::builder();
     let nsub = rng.below(4);
     for _ in 0..nsub {
